@@ -37,6 +37,9 @@ pub struct Slice {
     pub cancel_rtx: bool,
     pub configs: Vec<u8>,
     pub set_remote: Vec<u8>,
+    pub set_local: Vec<u8>,
+    /// build the agent with `.remote_addr(peer(i))` (offered as the first step only)
+    pub rebuild: Vec<u8>,
     pub max_live: usize,
     pub max_sends: u8,
     pub drain: bool,
@@ -299,6 +302,16 @@ impl SmModel for AgentModel {
                 out.push(Act::SetRemote { key: *k });
             }
         }
+        for k in &sl.set_local {
+            if sp.local_key != Some(*k) {
+                out.push(Act::SetLocal { key: *k });
+            }
+        }
+        if s.hist.is_empty() {
+            for r in &sl.rebuild {
+                out.push(Act::Rebuild { remote: *r });
+            }
+        }
     }
 
     fn step(&self, s: &Node, a: &Act, acc: &mut Acc) -> Option<Node> {
@@ -314,6 +327,11 @@ impl SmModel for AgentModel {
         if !breaches.is_empty() {
             for b in &breaches {
                 acc.violation(to_violation(b, spec.tcp, &hist));
+            }
+            if self.slice.prop == "C20" && breaches.iter().any(|b| b.property == "C06") {
+                if let Some(v) = leak_check(spec.tcp, &hist) {
+                    acc.violation(v);
+                }
             }
             acc.outcome("diverged (path not extended)");
             // a diverged node is kept (so it is counted) but gets no successors
@@ -404,6 +422,11 @@ pub fn drain_from(mut spec: Spec, mut real: Real, mut steps: Vec<Step>, prop: &'
                 v.signature = format!("{}/drain", v.signature);
                 acc.violation(v);
             }
+            if breaches.iter().all(|b| b.property != "C05") {
+                // the reference lost track for a reason that is another property's business (timing,
+                // addressing, ...); "ends in exactly one outcome" is still judged, black-box
+                blackbox_completion(&mut real, spec.tcp, step.now, &steps[..prefix], acc);
+            }
             return;
         }
     }
@@ -417,6 +440,99 @@ pub fn drain_from(mut spec: Spec, mut real: Real, mut steps: Vec<Step>, prop: &'
         v.signature = format!("{}/drain", v.signature);
         acc.violation(v);
     }
+}
+
+/// After the reference model diverged for a reason owned by another property: keep servicing the
+/// real agent at the wake-ups it announces itself and judge only C05's completion clause — every
+/// outstanding request of the universe ends, exactly once, within 80 further polls.
+fn blackbox_completion(real: &mut Real, tcp: bool, from: i64, prefix: &[Step], acc: &mut Acc) {
+    let mut t = from;
+    let mut completions: std::collections::BTreeMap<u128, u32> = Default::default();
+    let mut polls = 0;
+    let problem: Option<(String, String, String)> = loop {
+        let live_now = real.post().live.iter().any(|l| *l);
+        if !live_now {
+            break None;
+        }
+        polls += 1;
+        if polls > 80 {
+            break Some(("never-completes/blackbox".into(), "a transaction is still outstanding after 80 further polls at the wake-ups the agent announced itself".into(), format!("still outstanding at +{t}ms")));
+        }
+        let obs = match guarded(|| real.exec(&Step { act: Act::Poll { when: When::Now, order: 0 }, now: t })) {
+            Ok(o) => o,
+            Err(_) => return, // a panic is reported by the lock-step path
+        };
+        match obs {
+            Obs::PollWait(ns) => {
+                let w = (ns / 1_000_000) as i64;
+                t = if w > t { w } else { t + 1 };
+            }
+            Obs::PollTimedOut(id) | Obs::PollCancelled(id) => {
+                let c = completions.entry(id).or_insert(0);
+                *c += 1;
+                if *c > 1 {
+                    break Some(("completed-twice/blackbox".into(), "poll reported the completion of the same transaction twice".into(), format!("{id:#x} x{c}")));
+                }
+            }
+            _ => {}
+        }
+    };
+    if let Some((clause, what, observed)) = problem {
+        let b = Breach { property: "C05", clause, what, expected: "every request ends in exactly one outcome".into(), observed };
+        let mut v = to_violation(&b, tcp, prefix);
+        v.replay["variant"] = json!("drain");
+        acc.violation(v);
+    } else {
+        acc.outcome("completion judged black-box after a divergence owned by another property");
+    }
+}
+
+/// C20, last clause ("instants passed to one call do not leak into another transaction's
+/// schedule"): the joint history breaches a timing clause although the projection of the history
+/// onto each single transaction (same instants, the other transactions' calls removed) does not.
+pub fn leak_check(tcp: bool, hist: &[Step]) -> Option<Violation> {
+    let run = |steps: &[Step]| -> Vec<Breach> {
+        let mut real = Real::new(tcp, base_instant());
+        let mut spec = Spec::new(tcp);
+        for st in steps {
+            let b = lockstep(&mut spec, &mut real, st, "C20");
+            if !b.is_empty() {
+                return b;
+            }
+        }
+        Vec::new()
+    };
+    let joint = run(hist);
+    let timing = joint.iter().find(|b| b.property == "C06")?;
+    let ids: Vec<u8> = (0..3u8).filter(|i| hist.iter().any(|s| matches!(s.act, Act::Send { id, .. } if id == *i))).collect();
+    if ids.len() < 2 {
+        return None;
+    }
+    for i in &ids {
+        let proj: Vec<Step> = hist
+            .iter()
+            .filter(|s| match s.act {
+                Act::Send { id, .. } | Act::Cancel { id } | Act::CancelRtx { id } | Act::Configure { id, .. } => id == *i,
+                Act::Resp { id, .. } => id == *i || id >= 3,
+                _ => true,
+            })
+            .map(|s| match s.act {
+                Act::Poll { when, .. } => Step { act: Act::Poll { when, order: 0 }, now: s.now },
+                _ => *s,
+            })
+            .collect();
+        if !run(&proj).is_empty() {
+            return None; // the transaction misbehaves on its own: a C06 matter, not a leak
+        }
+    }
+    Some(Violation {
+        property: "C20".into(),
+        signature: "C20/cross-transaction-leak".into(),
+        what: format!("a transaction's schedule depends on calls made for another transaction: the joint history breaches `{}` ({}) while every single-transaction projection of it (same instants) follows the schedule", timing.clause, timing.what),
+        expected: timing.expected.clone(),
+        observed: timing.observed.clone(),
+        replay: replay_json(tcp, hist, Some(json!("leak"))),
+    })
 }
 
 /// run a history on a fresh agent and collect (observation, observers) per step
@@ -604,6 +720,9 @@ pub fn replay(prop: &str, rp: &Value) -> Vec<Violation> {
             }
         }
         return acc.violations.into_values().map(|(v, _)| v).collect();
+    }
+    if rp.get("variant").and_then(|v| v.as_str()) == Some("leak") {
+        return leak_check(tcp, &steps).into_iter().collect();
     }
     let mut real = Real::new(tcp, base_instant());
     let mut spec = Spec::new(tcp);
